@@ -43,7 +43,9 @@ var hookSpecs = []hookSpec{
 	{"internal/app/timing_tracker.go", "App", []string{"logTiming"}},
 	{"internal/app/app.go", "App", []string{"getLocalDaemonState", "updateActiveNodes", "performSwitchover", "baseContext",
 		// cut points for whole-iteration harnesses (C05): the manager's view and the repair callees
-		"getClusterStateFromDB", "repairOfflineMode", "repairCluster"}},
+		"getClusterStateFromDB", "repairOfflineMode", "repairCluster",
+		// spy point (C07): the long wait of a switchover
+		"waitForCatchUp"}},
 	{"internal/app/cli_util.go", "App", []string{"cliInitApp"}},
 	{"internal/util/user.go", "", []string{"GuessWhoRunning"}},
 	{"internal/app/node_state/node_state.go", "DiskState", []string{"Usage"}},
